@@ -89,6 +89,11 @@ CHECKS = {
    text="handler_iff (for every mechanism combination other than OpenID alone and every request: the tunnel handler is reached iff the first Authorization value parses as credentials of an enabled scheme that some value routes to and the backend confirms, and the tunnel's user is the confirmed one), no_header_401 and challenges_distinct (one challenge per enabled scheme), never_handler_otherwise, openid_only_open (Props/C05.lean). Tie: the real executable is started for each of the 11 startable subsets (TLS where the configuration demands it, fake IdP, fake gRPC authentication service that wraps the real NTLM verifier, generated keytab/krb5.conf) and sent a battery of Authorization headers (absent, empty, bare/truncated/wrong-case schemes, disabled schemes, several headers, wrong and right credentials) plus NTLM exchanges in order / with wrong passwords / across connections; status, WWW-Authenticate schemes and 101 upgrades are compared with Http.route; the confirmed user name is checked through a {{ preferred_username }} host entry.",
    design="6/C05",
    note="Kerberos positive path is not exercised (no KDC offline); PAM is not exercised (cmd/auth cannot be built: no PAM headers) — the fake service confirms a scripted table for Basic. gorilla/mux, net/http, gRPC and SPNEGO are trusted libraries whose routing semantics the model states (HeadersRegexp = unanchored substring on any value; handlers parse the first value)."),
+ "C10": dict(
+   technique="Lean 4 theorems about explicit-partiality models (every slice and index is a checked `slice?`, a fault is a value) of the input-handling code that can panic + hostile-input correspondence at hook, exported-API and binary tiers with panic/hang/liveness observation",
+   text="readHeader_no_panic, readHeader_matches_cut (the partial model agrees with Frame.cut wherever no fault is possible), need_bound (no read asks for more than 128 KiB + header), getAuthPayload_no_panic, kdcUdpPayload_no_panic, setBuffers_no_panic (TLS/TCP/other connection kinds), legacyIn_no_panic (every IN/OUT ordering), loop_total, packets_bounded; the pinned code's panics are theorems too (legacy_readHeader_panics, legacy_getAuthPayload_panics, legacy_setBuffers_panics, legacy_legacyIn_panics) in Props/C10.lean. Tie: hostile packet streams (length < 8, huge, truncated, inner lengths off, every type, before and after authorization) through the real reader and packet loop under recover with a hang watchdog; all legacy IN/OUT orderings and malformed HTTP against the real handler with the server's error log scanned for recovered panics; Authorization strings of every class through the NTLM and Basic middlewares; mutated NTLM messages (truncations, field offsets/lengths, types) against the real verifier; socket-buffer tuning over TCP/TLS/pipe connections; the real binary in {TLS on/off} × {buffers unset/set} × mechanisms under hostile input with stderr scan and a liveness probe.",
+   design="6/C10",
+   note="Panics inside third-party parsers are observed (and recovered in NTLMAuth.Authenticate since fix 95f4105) but not modelled; memory exhaustion is covered only through need_bound (one packet buffer per tunnel is bounded), not by measuring the process."),
  "C18": dict(
    technique="Lean 4 theorems about the startup decision procedure (one per refusal clause, key substitution, distinct fresh keys) + differential correspondence against the real binary started from generated files / RDPGW_ environments, and cross-instance acceptance tests",
    text="refuses_openid_without_tokenauth, refuses_basic_without_tls, refuses_ntlm_and_kerberos, refuses_kerberos_without_keytab, refuses_signed_without_query_key, refuses_no_hosts, keys_effective (a running gateway's five keys are 32 characters and are the configured ones iff those were exactly 32 long), fresh_keys_differ, configured_keys_kept, defaults_consistent (regenerated defaults map) in Props/C18.lean. Tie: the real executable is started for generated combinations of mechanisms × TLS × host selection × key presence/length (absent, 0, 1, 31, 32, 33) × host-list size × keytab, given by file, environment or both; running-vs-refused is compared with Config.startup; two instances started from one configuration exchange a session cookie and a PAA token (full fake-IdP login) to show that substituted keys are per instance and configured keys are shared.",
